@@ -12,6 +12,7 @@ from ..effects import FunctionEffects
 from .. import nf, lib
 from ..selftest import Mutant, Benign
 from . import _c06_common as cm
+from . import _c06_steps as steps_mod
 
 ID = 'C06'
 MK = 'mitxgraders/helpers/munkres.py'
@@ -29,7 +30,15 @@ EXPLANATION = (
     "rows of the argument and columns < its width where marked == 1 and emitted as (row, col); the padding value is "
     "a small finite number; the dispatch table has keys 1..6 bound to the six step methods and every step hands "
     "control to exactly the successors of the Munkres flow chart (1->2, 2->3, 3->4|done, 4->5|6, 5->3, 6->4), 'done' "
-    "only when the number of covered columns reaches n.")
+    "only when the number of covered columns reaches n; (D4, NF/TABLE by per-cell evaluation) every step equals the "
+    "reviewed textbook Hungarian step modulo the rewrite theory: the loop bodies of steps 1, 2, 3, 6, __find_smallest, "
+    "__find_a_zero, the three star/prime scans, __convert_path, __clear_covers and __erase_primes are evaluated for every "
+    "truth assignment of their atoms (row covered, column covered, cell zero/starred/primed) and the net effect per cell is "
+    "compared with the reference table (step 6: += minval iff the row is covered, -= minval iff the column is NOT covered, "
+    "minval = smallest cell with uncovered row AND uncovered column, full n x n sweep without skips); step 4 and step 5 are "
+    "compared by decision paths (prime / cover row / uncover star's column / Z0; alternating path, flip, clear covers, erase "
+    "primes). D4 pins the algorithm to the reviewed reference; it is a set of necessary structural conditions and NOT a proof "
+    "of optimality.")
 NOT_DECIDED = (
     "optimality of the returned matching, completeness (min(rows, columns) pairs using each row/column once) and "
     "termination of the step loop: these rest on the Koenig/Egervary invariant over reduced costs and on "
@@ -50,6 +59,14 @@ def check(ctx):
     d1_nomut(ctx, idx)
     d2_init(ctx, idx)
     d3_results(ctx, idx)
+    d4_steps(ctx, idx)
+
+
+def d4_steps(ctx, idx):
+    r = ctx.rule('D4.STEPS', 'each step of the solver equals the textbook Hungarian step (per-cell effect tables, '
+                 'full sweeps, no skipped adjustment)', floor=0)
+    with r:
+        steps_mod.check_steps(r, idx)
 
 
 def _methods(idx):
